@@ -26,10 +26,15 @@ type scen struct {
 	Release string // before | after   (gate opened before / after the stop was requested)
 	Fail    string // "" | poison:<k> | panic:<nodePrefix>:<k> | runpanic:<nodePrefix>
 	Racing  int    // >0: a writer goroutine keeps offering this many extra points while the stop runs
+	Waiters int    // goroutines already blocked in ExecutingTask.Wait() when the stop is requested (task_store has one per task)
 }
 
 func (s scen) key() string {
-	return fmt.Sprintf("%s/n%d/%s/%s/%s/%s/r%d", s.Pipe, s.N, s.Stop, s.Stall, s.Release, s.Fail, s.Racing)
+	k := fmt.Sprintf("%s/n%d/%s/%s/%s/%s/r%d", s.Pipe, s.N, s.Stop, s.Stall, s.Release, s.Fail, s.Racing)
+	if s.Waiters > 0 {
+		k += fmt.Sprintf("/w%d", s.Waiters)
+	}
+	return k
 }
 
 type outSpec struct {
@@ -67,8 +72,12 @@ type outcome struct {
 	LeakDump    string
 	NodeFailed  bool
 	FaultFired  bool // an injected panic was raised (whether or not the node reported a failure)
-	Errors      []string
-	StopMs      int64
+	// concurrent callers of ExecutingTask.Wait(): did each return, and with which error
+	WaiterBack []bool
+	WaiterErr  []string
+	WaiterDump string
+	Errors     []string
+	StopMs     int64
 }
 
 type attempt struct {
@@ -134,6 +143,7 @@ func runAttempt(sc scen, post *postSink, dl deadlines) (*outcome, *attempt, erro
 		return nil, nil, err
 	}
 	a.env = env
+	var tsw *tsWorld // the real task store service, for the stop APIs that go through it
 	envClosed := false
 	// closeEnv shuts the environment down but never waits for ever: on a broken tree the TaskMaster may be
 	// unable to close (a node that never ends); the goroutines are then abandoned with the process.
@@ -144,6 +154,9 @@ func runAttempt(sc scen, post *postSink, dl deadlines) (*outcome, *attempt, erro
 		envClosed = true
 		done := make(chan struct{})
 		go func() {
+			if tsw != nil {
+				tsw.ts.Close()
+			}
 			env.Close()
 			close(done)
 		}()
@@ -177,6 +190,11 @@ func runAttempt(sc scen, post *postSink, dl deadlines) (*outcome, *attempt, erro
 	if spec.Second != nil {
 		if _, err := env.StartTask(a.id+"b", spec.Second(a), kapacitor.StreamTask, []kapacitor.DBRP{{Database: "db2", RetentionPolicy: "rp"}}); err != nil {
 			return nil, nil, fmt.Errorf("second task: %v", err)
+		}
+	}
+	if strings.HasPrefix(sc.Stop, "TS") {
+		if tsw, err = openTaskStore(env); err != nil {
+			return nil, nil, err
 		}
 	}
 	// baseline: everything alive now is not the task's
@@ -238,9 +256,27 @@ func runAttempt(sc scen, post *postSink, dl deadlines) (*outcome, *attempt, erro
 		return nil, nil, fmt.Errorf("bad fail %q", sc.Fail)
 	}
 
-	et, err := env.TM.StartTask(task)
-	if err != nil {
-		return nil, nil, fmt.Errorf("StartTask: %v", err)
+	var et *kapacitor.ExecutingTask
+	if tsw != nil {
+		// created and enabled through the service's HTTP handler (which starts it and keeps a goroutine in et.Wait())
+		if err := tsw.createEnabled(a.id, spec.Script(a)); err != nil {
+			return nil, nil, err
+		}
+	} else {
+		et, err = env.TM.StartTask(task)
+		if err != nil {
+			return nil, nil, fmt.Errorf("StartTask: %v", err)
+		}
+	}
+	// ---- goroutines that sit in ExecutingTask.Wait() for the whole life of the task, as the task store's does
+	type waitRes struct {
+		w   int
+		err error
+	}
+	waitC := make(chan waitRes, sc.Waiters)
+	for w := 0; w < sc.Waiters; w++ {
+		w := w
+		go a.waiter(func() { waitC <- waitRes{w, et.Wait()} })
 	}
 	var accMu sync.Mutex
 	var bq *batchSource
@@ -293,8 +329,7 @@ func runAttempt(sc scen, post *postSink, dl deadlines) (*outcome, *attempt, erro
 	} else if !waitFor(dl.Step, func() bool {
 		return sourceCollected(a.id) >= int64(sc.N) || (sc.Fail != "" && nodeFailed(diag))
 	}) {
-		st, _ := et.ExecutionStats()
-		return nil, nil, fmt.Errorf("points were not forked into the task within %v: %v", dl.Step, st.NodeStats)
+		return nil, nil, fmt.Errorf("points were not forked into the task within %v (forked %d of %d)", dl.Step, sourceCollected(a.id), sc.N)
 	}
 	if stallGate != nil {
 		if !stallGate.WaitArrived(dl.Step) {
@@ -338,6 +373,23 @@ func runAttempt(sc scen, post *postSink, dl deadlines) (*outcome, *attempt, erro
 		}
 	}
 
+	if sc.Waiters > 0 && !spec.Batch && sc.Fail == "" {
+		// every waiter is inside node.Wait of the last node before the stop is requested
+		if !waitFor(dl.Step, func() bool {
+			ws := findFrame(parseStacks(allStacks()), waiterFrame)
+			if len(ws) < sc.Waiters {
+				return false
+			}
+			for _, g := range ws {
+				if !g.blocked() {
+					return false
+				}
+			}
+			return true
+		}) {
+			return nil, nil, fmt.Errorf("the %d waiters did not park in ExecutingTask.Wait within %v", sc.Waiters, dl.Step)
+		}
+	}
 	// optional racing writer: keeps offering points while the stop runs
 	racingDone := make(chan struct{})
 	if sc.Racing > 0 {
@@ -426,6 +478,10 @@ func runAttempt(sc scen, post *postSink, dl deadlines) (*outcome, *attempt, erro
 		case "DrainStopTasks":
 			env.TM.Drain()
 			env.TM.StopTasks()
+		case "TSDisable":
+			err = tsw.disable(a.id)
+		case "TSDelete":
+			err = tsw.del(a.id)
 		}
 		stopped <- stopRes{err, a.delivered(), ""}
 	})
@@ -518,6 +574,51 @@ func runAttempt(sc scen, post *postSink, dl deadlines) (*outcome, *attempt, erro
 	}
 	out.StopMs = time.Since(t0).Milliseconds()
 	<-racingDone
+
+	// ---- every goroutine that was waiting for the task must get its answer once the task has stopped
+	if sc.Waiters > 0 {
+		out.WaiterBack = make([]bool, sc.Waiters)
+		out.WaiterErr = make([]string, sc.Waiters)
+	}
+	if sc.Waiters > 0 && out.Returned {
+		back := 0
+		deadline := time.Now().Add(dl.Leak)
+		still := 0
+		lastFP := ""
+		for back < sc.Waiters {
+			select {
+			case r := <-waitC:
+				out.WaiterBack[r.w] = true
+				if r.err != nil {
+					out.WaiterErr[r.w] = r.err.Error()
+				}
+				back++
+				continue
+			default:
+			}
+			// not back yet: stuck only if the waiters AND everything of the module under test are parked and
+			// motionless over several dumps (nobody left who could ever send on the node's error channel)
+			fp, parked, dump := a.motionless()
+			if parked && fp == lastFP {
+				still++
+			} else {
+				still = 0
+			}
+			lastFP = fp
+			if still >= 3 {
+				out.WaiterDump = dump
+				break
+			}
+			if time.Now().After(deadline) {
+				return nil, nil, fmt.Errorf("waiters of ExecutingTask.Wait neither returned nor parked for good within %v (machine too slow?)\n%s", dl.Leak, dump)
+			}
+			if still == 0 {
+				time.Sleep(200 * time.Microsecond)
+			} else {
+				time.Sleep(dl.Quiet / 3)
+			}
+		}
+	}
 
 	if out.Returned && !censusDone {
 		if err := census(); err != nil {
@@ -614,6 +715,26 @@ func (a *attempt) stopper(f func()) { f() }
 
 const stopperFrame = "kapverif/drivers/c07.(*attempt).stopper"
 
+// waiter is a named frame for the goroutines that call ExecutingTask.Wait().
+//
+//go:noinline
+func (a *attempt) waiter(f func()) { f() }
+
+const waiterFrame = "kapverif/drivers/c07.(*attempt).waiter"
+
+func findFrame(gs []gor, frame string) []gor {
+	var out []gor
+	for _, g := range gs {
+		for _, f := range g.Frames {
+			if f == frame {
+				out = append(out, g)
+				break
+			}
+		}
+	}
+	return out
+}
+
 func findStopper(gs []gor) (gor, bool) {
 	for _, g := range gs {
 		for _, f := range g.Frames {
@@ -640,8 +761,8 @@ func (a *attempt) motionless() (string, bool, string) {
 	for _, g := range all {
 		isStopper := false
 		for _, f := range g.Frames {
-			if f == stopperFrame {
-				isStopper = true
+			if f == stopperFrame || f == waiterFrame {
+				isStopper = true // the stopper, or a caller blocked in ExecutingTask.Wait
 			}
 		}
 		if isStopper || g.ofKapacitor() {
